@@ -151,6 +151,17 @@ def props_pin(pid):
     return hashlib.sha256(body.encode()).hexdigest()
 
 
+def tie_pin():
+    """hash of the hand-written tie files coq/Tie/*.v (statements and proofs), comments and whitespace removed"""
+    h = hashlib.sha256()
+    d = os.path.join(COQ, "Tie")
+    for f in sorted(os.listdir(d)):
+        if f.endswith(".v"):
+            h.update(f.encode())
+            h.update(re.sub(r"\s+", "", strip_comments(open(os.path.join(d, f)).read())).encode())
+    return h.hexdigest()
+
+
 def props_pin_check(pid):
     """(ok, message): the property file is the pinned one (coq/props.pinned.json, committed)"""
     f = os.path.join(COQ, "props.pinned.json")
@@ -160,12 +171,14 @@ def props_pin_check(pid):
     h = props_pin(pid)
     if pins.get(pid) != h:
         return False, "Props/%s.v differs from its pinned statements (pinned %s, found %s)" % (pid, pins.get(pid), h)
+    if pins.get("Tie") != tie_pin():
+        return False, "coq/Tie/*.v differ from the pinned tie lemmas (pinned %s, found %s)" % (pins.get("Tie"), tie_pin())
     return True, ""
 
 
 def coq_dep_cone(pid):
     """Files in the dependency cone of Props/<pid>.v and the number of proved statements in them."""
-    rc, out = sh(["coqdep"] + coq_flags() + coq_sources(), cwd=COQ)
+    rc, out = sh(["coqdep"] + coq_flags() + [f for f in coq_sources() if "/Tie/" not in f], cwd=COQ)
     deps = {}
     for line in out.splitlines():
         if ":" not in line:
@@ -192,11 +205,114 @@ def coq_dep_cone(pid):
     return sorted(os.path.relpath(f, COQ) for f in seen if os.path.exists(f)), n
 
 
+# --------------------------------------------------------------------------
+# the source-derived tie: declarations and tables regenerated from /repo on every run (tools/rs2coq.py),
+# compared with the hand-written model by the lemmas of coq/Tie/*.v
+# --------------------------------------------------------------------------
+TIE_DIR = os.path.join(BUILD, "tie")
+TIE_FILES = ["Src", "TieLib", "TieConv", "TieMbi", "TieHdr", "TieProps"]
+TIE_DEPS = {"Src": [], "TieLib": [], "TieConv": ["Src"], "TieMbi": ["Src", "TieLib"], "TieHdr": ["Src", "TieLib"],
+            "TieProps": ["Src", "TieLib", "TieConv", "TieMbi", "TieHdr"]}
+# notes the translator prints on the unchanged tree (generic code it does not translate by design)
+TIE_BASELINE_NOTES = {"const DynSizedStructure::BASE_SIZE (multiboot2-common/src/tag.rs): unknown type: H"}
+
+
+def source_tie():
+    """Regenerate Src.v from /repo's working tree and re-check the tie lemmas.  Returns
+    dict(files={name: dict(ok, output)}, notes=[...], new_notes=[...], emitted=n, literals=[...], theorems=[(name, closed)])"""
+    os.makedirs(TIE_DIR, exist_ok=True)
+    import fcntl
+    lock = open(os.path.join(TIE_DIR, ".lock"), "w")
+    fcntl.flock(lock, fcntl.LOCK_EX)
+    try:
+        return _source_tie()
+    finally:
+        fcntl.flock(lock, fcntl.LOCK_UN)
+        lock.close()
+
+
+def _source_tie():
+    srcv = os.path.join(TIE_DIR, "Src.v")
+    facts = os.path.join(TIE_DIR, "facts.json")
+    rc, out = sh([sys.executable, os.path.join(VERIF, "tools", "rs2coq.py"), REPO, srcv, facts], timeout=300)
+    if rc != 0 or not os.path.exists(facts):
+        return dict(files={f: dict(ok=False, output="rs2coq failed:\n" + out[-2000:]) for f in TIE_FILES}, notes=[out[-500:]],
+                    new_notes=["rs2coq failed"], emitted=0, literals=[], theorems=[])
+    fx = json.load(open(facts))
+    for f in TIE_FILES[1:]:
+        src = os.path.join(COQ, "Tie", f + ".v")
+        dst = os.path.join(TIE_DIR, f + ".v")
+        if not os.path.exists(dst) or open(src).read() != open(dst).read():
+            shutil.copy(src, dst)
+    # key of everything the tie depends on: generated file, tie sources, the compiled development
+    h = hashlib.sha256()
+    for f in TIE_FILES:
+        h.update(open(os.path.join(TIE_DIR, f + ".v"), "rb").read())
+    for f in sorted(coq_sources()):
+        if "/Tie/" in f:
+            continue
+        vo = f + "o"
+        h.update(("%s %s\n" % (f, os.path.getmtime(vo) if os.path.exists(vo) else "missing")).encode())
+    key = h.hexdigest()
+    state_f = os.path.join(TIE_DIR, "state.json")
+    state = None
+    if os.path.exists(state_f):
+        try:
+            state = json.load(open(state_f))
+        except ValueError:
+            state = None
+    if not state or state.get("key") != key:
+        files = {}
+        flags = coq_flags() + ["-R", TIE_DIR, "MB2Tie"]
+        for f in TIE_FILES:
+            bad = [d for d in TIE_DEPS[f] if not files[d]["ok"]]
+            if bad:
+                files[f] = dict(ok=False, output="not checked: depends on %s" % ", ".join(bad))
+                continue
+            vo = os.path.join(TIE_DIR, f + ".vo")
+            if os.path.exists(vo):
+                os.remove(vo)
+            rc, out = sh(["timeout", "600", "coqc", "-noglob"] + flags + [f + ".v"], cwd=TIE_DIR, timeout=700)
+            files[f] = dict(ok=rc == 0, output=out[-3000:])
+        state = dict(key=key, files=files)
+        with open(state_f, "w") as fh:
+            json.dump(state, fh)
+    files = state["files"]
+    theorems = []
+    if files["TieProps"]["ok"]:
+        body = strip_comments(open(os.path.join(TIE_DIR, "TieProps.v")).read())
+        printed = re.findall(r"Print Assumptions\s+(\w+)", body)
+        closed = [l for l in files["TieProps"]["output"].splitlines()
+                  if l.startswith("Closed under the global context") or l.startswith("Axioms:")]
+        for i, n in enumerate(printed):
+            theorems.append((n, i < len(closed) and closed[i].startswith("Closed")))
+        if len(closed) != len(printed) or not all(t[1] for t in theorems):
+            files["TieProps"] = dict(ok=False, output="assumptions not closed:\n" + files["TieProps"]["output"])
+    lemmas = {}
+    for f in TIE_FILES[2:]:
+        body = strip_comments(open(os.path.join(TIE_DIR, f + ".v")).read())
+        lemmas[f] = re.findall(r"^\s*(?:Lemma|Theorem)\s+(\w+)", body, re.M)
+    notes = fx.get("notes", [])
+    return dict(files=files, notes=notes, new_notes=[n for n in notes if n not in TIE_BASELINE_NOTES],
+                emitted=len(fx.get("emitted", [])), literals=fx.get("literals", []), theorems=theorems, lemmas=lemmas)
+
+
+def source_literals():
+    """integer literals of the non-test Rust source of the working tree (generator hints)"""
+    f = os.path.join(TIE_DIR, "facts.json")
+    if not os.path.exists(f):
+        source_tie()
+    try:
+        return json.load(open(f)).get("literals", [])
+    except (OSError, ValueError):
+        return []
+
+
 def oracle_build():
     """Extract the model and compile the OCaml oracle (skipped when up to date)."""
     os.makedirs(ORACLE_DIR, exist_ok=True)
     exe = os.path.join(ORACLE_DIR, "oracle")
-    srcs = [f for f in coq_sources() if "/Proofs/" not in f and "/Props/" not in f]
+    srcs = [f for f in coq_sources() if "/Proofs/" not in f and "/Props/" not in f and "/Tie/" not in f]
     newest = max(os.path.getmtime(f) for f in srcs + [os.path.join(COQ, "Extract", "driver.ml")])
     if os.path.exists(exe) and os.path.getmtime(exe) >= newest:
         return True, "up to date"
